@@ -8,7 +8,7 @@ from . import _sched as S
 from .C02 import WITNESSES
 
 PROP = "C03"
-GEN_REGIONS: List[str] = ["Sched", "Utils"]
+GEN_REGIONS: List[str] = ["Sched", "Utils", "SchedGlue"]
 THEOREMS = {
     "SpecKitV.Lemmas.SchedLtf": ["ltfStep_rL", "ltfStep_bin", "ltfStep_bmin_slack", "walk_first", "walk_below", "walk_stepping",
                                  "ltf_walk_ge_fmin", "ltf_walk_nonempty"],
@@ -19,8 +19,13 @@ THEOREMS = {
     "SpecKitV.Props.SchedGen": ["gen_ltf_round_eq", "gen_ltf_walk_eq_model", "gen_new_walk_eq_model"],
     "SpecKitV.Props.VecGen": ["Arr.memo_eq", "Np.logspace_get", "Np.searchsortedLeft_eq", "gen_vec_walk_eq_model", "gen_vec_walk_eq_plan"],
     "SpecKitV.Props.Utils": ["gen_round_half_up_eq_model", "gen_round_half_up_eq_floor"],
+    "SpecKitV.Props.SchedGlueGen": ["SchedGlue.gen_require_args_eq", "SchedGlue.gen_ltf_post_eq", "SchedGlue.gen_vec_post_glue_eq", "SchedGlue.gen_new_post_glue_eq", "SchedGlue.gen_ltf_plan_eq_model", "SchedGlue.gen_vec_plan_eq_model", "SchedGlue.gen_new_plan_eq_model", "SchedGlue.gen_lpsd_forward", "SchedGlue.gen_lpsd_plan_eq_ltf", "SchedGlue.gen_lpsd_plan_eq_model", "SchedGlue.gen_plan_missing_key", "SchedGlue.gen_lpsd_missing_key", "SchedGlue.planDict_keys", "SchedGlue.gen_plan_wiring", "SchedGlue.planDict_overlap", "SchedGlue.gen_ltf_plan_props", "SchedGlue.gen_lpsd_plan_props", "SchedGlue.gen_new_plan_props", "SchedGlue.gen_vec_plan_props", "SchedGlue.gen_plan_overlap_key"],
 }
-CONTRACTS = ["np.logspace/np.searchsorted as modelled (10**linspace; count of grid points below the query)"]
+CONTRACTS = ["np.logspace/np.searchsorted as modelled (10**linspace; count of grid points below the query)",
+             'Python dict with string keys = association list, most recent binding first (Py.Dict in Np/SchedGlue.lean): d[k]=v (last write wins), d[k], k in d, dict(d) copies, d.update(e), dict(k=v,...)',
+             'np.array(list) = NpSG.ofList: element i is list[i], length len(list); NpSG.toList / NpSG.toList2: the elements of a (nested) array in order (the view under which the output dictionary is stated)',
+             "NumPy basic slicing a[lo:hi] (step 1) = NpSG.slice with Python's normalisation of negative / out-of-range bounds; np.mean = left-to-right sum / length (Arr.mean)",
+]
 ASSUMPTIONS = ["float evaluation: r*L=fs and f[j+1]=f[j]+r[j] are checked to a few ulp on the real code; exact in the real-number theorems"]
 RULE = S.__doc__ and ("admissible configurations × 4 schedulers; every bin checked for r*L=fs, stepping, f0, monotone, below Nyquist, bin number, bmin slack; "
                       "distinct by (scheduler, configuration)")
@@ -28,7 +33,9 @@ RULE = S.__doc__ and ("admissible configurations × 4 schedulers; every bin chec
 
 def correspondence(ctx) -> C.Part:
     P = C.Part()
-    S.correspondence_plans(ctx, P, ctx.scale(80, 600))
+    cfgs = S.correspondence_plans(ctx, P, ctx.scale(80, 600))
+    # region SchedGlue: the generated schedulers (unpacking, lpsd forwarding, statements after the walk, output dictionary) vs the real ones
+    S.correspondence_glue(ctx, P, cfgs)
     return P
 
 
@@ -45,7 +52,10 @@ def check_cfg(P: C.Part, cfg, scheds=S.SCHEDS) -> None:
         P.violations.extend(S.pred_C03(sched, cfg, plan))
     if "lpsd" in scheds:
         P.cases += 1
-        P.violations.extend(S.pred_C03_lpsd_is_ltf(cfg))
+        try:
+            P.violations.extend(S.pred_C03_lpsd_is_ltf(cfg))
+        except BaseException:  # noqa  (a scheduler that raises is reported by the loop above)
+            pass
 
 
 def oracle(ctx, intensive: bool = False, hints=()) -> C.Part:
